@@ -361,7 +361,13 @@ func runCase(mode string, shape []field, prefix string, fm map[string]string) (l
 			}
 			got[0] = "scribbled/" + got[0]
 		}
-		applyErr = fs.Apply(actx, st)
+		// (the service of this driver answers at once: ten seconds are for a lookup that waits for something that never comes)
+		lctx, lcancel := context.WithTimeout(actx, 10*time.Second)
+		applyErr = fs.Apply(lctx, st)
+		if lctx.Err() != nil && actx.Err() == nil {
+			notes = append(notes, "Apply blocked for 10 s against a service that answers every request at once")
+		}
+		lcancel()
 	} else {
 		// every secret the fields name exists, so construction never has to wait; the deadline only keeps a
 		// wrongly requested (non-existent) secret from retrying forever
@@ -492,7 +498,12 @@ func noLookup(shape []field, prefix string) []string {
 	for _, n := range fs.Secrets() {
 		unknown = unknown || n == join(prefix, "n2")
 	}
-	aerr := fs.Apply(context.Background(), st)
+	lctx, lcancel := context.WithTimeout(context.Background(), 10*time.Second)
+	defer lcancel()
+	aerr := fs.Apply(lctx, st)
+	if lctx.Err() != nil {
+		notes = append(notes, "with lookups disabled Apply blocked for 10 s")
+	}
 	s.mu.Lock()
 	reqs := append([]string(nil), s.reqs...)
 	s.mu.Unlock()
